@@ -264,6 +264,8 @@ func runSelftest(verif string) int { return 0 }
 // checker only.
 func runSeedMatrix(pid, repo, verif string) any {
 	dirs, _ := filepath.Glob(filepath.Join(verif, "seeded", pid+"-*"))
+	more, _ := filepath.Glob(filepath.Join(verif, "seeded", "*-"+pid+"-*")) // later rounds: r2-Cxx-k
+	dirs = append(dirs, more...)
 	sort.Strings(dirs)
 	type res struct {
 		ID     string   `json:"id"`
@@ -338,4 +340,180 @@ func runSeedMatrix(pid, repo, verif string) any {
 	}
 	return map[string]any{"seeds": len(out), "caught": caught, "missed": missed, "results": out,
 		"note": "independently seeded property-breaking changes (seeded/), each applied to a scratch copy of the current tree; the property's own check must fail. Checker validation only."}
+}
+
+// A Benign variant is a behaviour-preserving edit (rename, reordering of
+// independent statements, equivalent idiom, extracted helper) applied to a
+// scratch copy of the current tree: every rule must stay silent on it. This
+// validates the other direction - no alarm on code where the property holds.
+type Benign struct {
+	ID    string `json:"id"`
+	Edits []struct {
+		File string `json:"file"`
+		Old  string `json:"old"`
+		New  string `json:"new"`
+		All  bool   `json:"all,omitempty"` // replace every occurrence (renames)
+	} `json:"edits"`
+	Why string `json:"why"`
+}
+
+type BenignResult struct {
+	ID       string   `json:"id"`
+	Status   string   `json:"status"` // silent | FALSE-ALARM | not-applicable | does-not-compile | error
+	Reported []string `json:"reported,omitempty"`
+	Note     string   `json:"note,omitempty"`
+}
+
+func loadBenign(verif string) ([]Benign, error) {
+	var out []Benign
+	files, _ := filepath.Glob(filepath.Join(verif, "benign", "*.json"))
+	sort.Strings(files)
+	for _, f := range files {
+		b, err := os.ReadFile(f)
+		if err != nil {
+			return nil, err
+		}
+		var ms []Benign
+		if err := json.Unmarshal(b, &ms); err != nil {
+			return nil, fmt.Errorf("%s: %w", f, err)
+		}
+		out = append(out, ms...)
+	}
+	return out, nil
+}
+
+func runOneBenign(m Benign, repo string, baseline map[string]bool, pid string) BenignResult {
+	res := BenignResult{ID: m.ID}
+	tmp, err := os.MkdirTemp("", "sdbcheck-ben-")
+	if err != nil {
+		res.Status, res.Note = "error", err.Error()
+		return res
+	}
+	defer os.RemoveAll(tmp)
+	if err := copyRepo(repo, tmp); err != nil {
+		res.Status, res.Note = "error", err.Error()
+		return res
+	}
+	for _, e := range m.Edits {
+		b, err := os.ReadFile(filepath.Join(tmp, e.File))
+		if err != nil {
+			res.Status, res.Note = "not-applicable", "file not found: "+e.File
+			return res
+		}
+		n := strings.Count(string(b), e.Old)
+		if n == 0 || (n != 1 && !e.All) {
+			res.Status = "not-applicable"
+			res.Note = fmt.Sprintf("anchor text occurs %d times in %s on this tree", n, e.File)
+			return res
+		}
+		nb := strings.ReplaceAll(string(b), e.Old, e.New)
+		if err := os.WriteFile(filepath.Join(tmp, e.File), []byte(nb), 0o644); err != nil {
+			res.Status, res.Note = "error", err.Error()
+			return res
+		}
+	}
+	exe, _ := os.Executable()
+	out, err := exec.Command(exe, "dump", "all", "--bad", "--json", "--repo", tmp).Output()
+	if err != nil && len(out) == 0 {
+		res.Status, res.Note = "error", fmt.Sprintf("%v", err)
+		return res
+	}
+	if strings.Contains(string(out), "CANNOT-ANALYSE") {
+		res.Status, res.Note = "does-not-compile", firstLine(string(out))
+		return res
+	}
+	var obs []Ob
+	if err := json.Unmarshal(out, &obs); err != nil {
+		res.Status, res.Note = "error", "bad json from dump: "+firstLine(string(out))
+		return res
+	}
+	for _, ob := range obs {
+		if !baseline[ob.Key] && (pid == "" || hasProp(ob.Props, pid)) {
+			res.Reported = append(res.Reported, ob.Key)
+		}
+	}
+	sort.Strings(res.Reported)
+	if len(res.Reported) > 0 {
+		res.Status = "FALSE-ALARM"
+	} else {
+		res.Status = "silent"
+	}
+	return res
+}
+
+func runBenign(ms []Benign, repo string, par int, pid string) []BenignResult {
+	base := baselineBad(repo)
+	res := make([]BenignResult, len(ms))
+	sem := make(chan struct{}, par)
+	var wg sync.WaitGroup
+	for i := range ms {
+		wg.Add(1)
+		sem <- struct{}{}
+		go func(i int) {
+			defer wg.Done()
+			defer func() { <-sem }()
+			res[i] = runOneBenign(ms[i], repo, base, pid)
+		}(i)
+	}
+	wg.Wait()
+	return res
+}
+
+func runBenignCmd(pos []string, repo, verif string) int {
+	ms, err := loadBenign(verif)
+	if err != nil {
+		fmt.Println(err)
+		return 2
+	}
+	if len(pos) > 0 {
+		var sel []Benign
+		for _, m := range ms {
+			for _, p := range pos {
+				if strings.HasPrefix(m.ID, p) {
+					sel = append(sel, m)
+					break
+				}
+			}
+		}
+		ms = sel
+	}
+	res := runBenign(ms, repo, 8, "")
+	bad := 0
+	for _, r := range res {
+		fmt.Printf("%-16s %s\n", r.Status, r.ID)
+		if r.Note != "" {
+			fmt.Printf("                 note: %s\n", r.Note)
+		}
+		for _, k := range r.Reported {
+			fmt.Printf("                 reported: %s\n", k)
+		}
+		if r.Status != "silent" {
+			bad++
+		}
+	}
+	fmt.Printf("%d benign variants, %d not silent/invalid\n", len(res), bad)
+	if bad > 0 {
+		return 1
+	}
+	return 0
+}
+
+// runBenignMatrix (thorough tier): all benign variants, all rules.
+func runBenignMatrix(pid, repo, verif string) any {
+	ms, err := loadBenign(verif)
+	if err != nil {
+		return map[string]any{"error": err.Error()}
+	}
+	res := runBenign(ms, repo, 6, pid)
+	silent, alarms := 0, 0
+	for _, r := range res {
+		switch r.Status {
+		case "silent":
+			silent++
+		case "FALSE-ALARM":
+			alarms++
+		}
+	}
+	return map[string]any{"variants": len(ms), "silent": silent, "false_alarms": alarms, "results": res,
+		"note": "behaviour-preserving edits of the current tree applied to scratch copies; every rule serving this property must stay silent. Checker validation only."}
 }
